@@ -102,6 +102,26 @@ func newMaterial() (m *material, err error) {
 		caKeys[name], authorities[name] = k, c
 	}
 	m.cas["ca"], m.cas["ca2"] = authorities["ca"], authorities["ca2"]
+	// an authority with the subject of "ca" and a key of its own: the root before it was re-keyed
+	{
+		k, err := ecdsa.GenerateKey(elliptic.P256(), rand.Reader)
+		if err != nil {
+			return nil, err
+		}
+		t := tmpl("verif authority ca")
+		t.IsCA, t.BasicConstraintsValid, t.KeyUsage = true, true, x509.KeyUsageCertSign|x509.KeyUsageDigitalSignature
+		if m.cas["caold"], err = issue(t, t, &k.PublicKey, k); err != nil {
+			return nil, err
+		}
+		// the authorities that pad the big trust bundle share one key: only their number matters
+		for _, name := range fillerNames {
+			ft := tmpl("verif filler authority " + name)
+			ft.IsCA, ft.BasicConstraintsValid, ft.KeyUsage = true, true, x509.KeyUsageCertSign|x509.KeyUsageDigitalSignature
+			if m.cas[name], err = issue(ft, ft, &k.PublicKey, k); err != nil {
+				return nil, err
+			}
+		}
+	}
 
 	for _, s := range []struct{ name, issuer string }{{"good", "ca"}, {"rogue", "rogue"}} {
 		k, err := ecdsa.GenerateKey(elliptic.P256(), rand.Reader)
@@ -188,6 +208,19 @@ func newMaterial() (m *material, err error) {
 	m.files["ca:bundle"] = filepath.Join(m.dir, "bundle.pem")
 	bundle := append(pem.EncodeToMemory(&pem.Block{Type: "CERTIFICATE", Bytes: m.cas["ca"].Raw}), pem.EncodeToMemory(&pem.Block{Type: "CERTIFICATE", Bytes: m.cas["ca2"].Raw})...)
 	if err = os.WriteFile(m.files["ca:bundle"], bundle, 0o600); err != nil {
+		return nil, err
+	}
+	// a trust bundle of distribution size: well over 64 KiB, the authority that matters at its very end
+	m.files["ca:bigbundle"] = filepath.Join(m.dir, "bigbundle.pem")
+	var bigBundle []byte
+	for _, name := range fillerNames {
+		bigBundle = append(bigBundle, pem.EncodeToMemory(&pem.Block{Type: "CERTIFICATE", Bytes: m.cas[name].Raw})...)
+	}
+	bigBundle = append(bigBundle, pem.EncodeToMemory(&pem.Block{Type: "CERTIFICATE", Bytes: m.cas["ca"].Raw})...)
+	if len(bigBundle) <= 64<<10 {
+		return nil, fmt.Errorf("the big bundle has only %d bytes", len(bigBundle))
+	}
+	if err = os.WriteFile(m.files["ca:bigbundle"], bigBundle, 0o600); err != nil {
 		return nil, err
 	}
 	m.files["garbage"] = filepath.Join(m.dir, "garbage.pem")
